@@ -101,7 +101,17 @@ def expand_like(deck):
         out = copy.deepcopy(base)
         out['id'] = c['id']
         out['like'] = None
-        for key, val in c['like']['but'].items():
+        but = c['like']['but']
+        for key, val in but.items():
+            if key == 'imp':
+                # importances are overridden per particle type
+                merged = dict(out.get('imp') or {})
+                merged.update(val)
+                out['imp'] = merged
+                out.pop('imp_groups', None)
+                continue
+            if key == 'imp_groups':
+                continue
             out[key] = copy.deepcopy(val)
         by_id[c['id']] = out
         return out
